@@ -7,7 +7,7 @@ from fractions import Fraction
 
 from .. import bits as B, codec, lengths as LN
 from ..model import AnalysisError, StructVal, dotted, norm_text, unparse, walk_no_nested
-from ..q import NONEXC, Fn
+from ..q import NONEXC, Fn, same_relation
 from . import c05, c13
 from .c04 import layout
 
@@ -173,6 +173,19 @@ def r1(ctx):
     ctx.check(ok, R, "encoding.encode_c_string:exact-length", em, fn, "pads with NUL up to `length`, then truncates to `length`", " ; ".join(body))
 
 
+def _canon_enc(x):
+    """the local that holds the sub-encoder may have any name: its method calls are compared as ENC.<method>(...)"""
+    if isinstance(x, str):
+        return re.sub(r"\b\w+\.(non_repeat_size|repeat_count|repeat_size|size|encode)\(", r"ENC.\1(", re.sub(r"^subenc:\w+$", "subenc:ENC", x))
+    if isinstance(x, tuple):
+        return tuple(_canon_enc(y) for y in x)
+    if isinstance(x, dict):
+        return {_canon_enc(k): _canon_enc(v) for k, v in x.items()}
+    if isinstance(x, list):
+        return [_canon_enc(y) for y in x]
+    return x
+
+
 def _wrapper(ctx, R, lab, m, ci, sz, enc):
     sub = ctx.repo.try_fold(m, m.get_const_expr("_SUB_HEADER_STRUCT"))
     ctx.require(isinstance(sub, StructVal), f"{m.relpath}: _SUB_HEADER_STRUCT not foldable")
@@ -180,15 +193,15 @@ def _wrapper(ctx, R, lab, m, ci, sz, enc):
     if not ok:
         ctx.violation(R, f"{lab}:wrapper", m, ci.node, "one size() path and one encode() path", f"{len(sz)}/{len(enc)}")
         return
-    ls, le = sz[0][1], enc[0][1]
+    ls, le = _canon_enc(sz[0][1]), _canon_enc(enc[0][1])
     ctx.check(ls.get(1, 0) == sub.size and le.get(1, 0) == sub.size, R, f"{lab}:sub-header-size", m, ci.methods["size"], f"size() and encode() both add the {sub.size}-byte sub-header", f"size adds {ls.get(1, 0)}, encode adds {le.get(1, 0)}")
     sym_s = sorted(repr(t) for t in ls if t != 1)
     sym_e = sorted(repr(t) for t in le if t != 1)
     if ci.name == "ExtendedMessageEncoder":
-        ok = sym_s == [repr(("call", "sub_message_encoder.size(message.sub_message)"))] and sym_e == [repr(("call", "subenc:sub_message_encoder"))]
+        ok = sym_s == [repr(("call", "ENC.size(message.sub_message)"))] and sym_e == [repr(("call", "subenc:ENC"))]
         ctx.check(ok, R, f"{lab}:sub-message-size", m, ci.methods["size"], "size = sub-header + sub_encoder.size(sub_message); encode = sub-header + sub_encoder.encode(...)", f"size: {LN.l_fmt(ls)}; encode: {LN.l_fmt(le)}")
     else:
-        want = {("call", "sub_message_encoder.non_repeat_size(message.sub_message)"): 1, ("mul", ("call", "sub_message_encoder.repeat_count(message.sub_message)"), ("call", "sub_message_encoder.repeat_size(message.sub_message)")): 1, 1: sub.size}
+        want = {("call", "ENC.non_repeat_size(message.sub_message)"): 1, ("mul", ("call", "ENC.repeat_count(message.sub_message)"), ("call", "ENC.repeat_size(message.sub_message)")): 1, 1: sub.size}
         ctx.check(ls == want, R, f"{lab}:sub-message-size", m, ci.methods["size"], "size = sub-header + non_repeat_size + repeat_count * repeat_size (of the same sub-message)", LN.l_fmt(ls))
 
 
@@ -216,6 +229,19 @@ def r1b(ctx):
                         e, f_ = ca.args[0].args[0], cb.args[0]
                         ctx.check(norm_text(e) == norm_text(f_), R, f"{name.split('.')[1]}.{name.split('.')[-1]}.{cname}:length-prefix({norm_text(f_)[:30]})", m, a, f"the length byte is len() of the bytes appended next: len({norm_text(f_)[:50]})", f"len({norm_text(e)[:50]}) - for text with multi-byte characters the character count differs from the byte count")
     ctx.require(n >= 5, f"only {n} length-prefixed strings found in the encoders (expected the two error texts, two version strings and the zone names)")
+
+
+def _is_request_cond(text: str) -> bool:
+    """the path condition (a string of the length domain) asserts positively that the message is a *Request instance"""
+    try:
+        e = ast.parse(text, mode="eval").body
+    except SyntaxError:
+        return False
+    parts = e.values if isinstance(e, ast.BoolOp) and isinstance(e.op, ast.And) else [e]
+    for p in parts:
+        if isinstance(p, ast.Call) and dotted(p.func) == "isinstance" and len(p.args) == 2 and (dotted(p.args[1]) or "").endswith("Request"):
+            return True
+    return False
 
 
 def r8(ctx):
@@ -263,7 +289,7 @@ def r8(ctx):
                     for c, l, v in _paths(ctx, m, ecls, "size", union):
                         if l is None or not _self_consistent(c):
                             continue
-                        is_req = any(x.startswith("isinstance(") and x.split(", ")[1].rstrip(")").endswith("Request") for x in c)
+                        is_req = any(_is_request_cond(x) for x in c)
                         if is_req and set(l) <= {1}:
                             req_sizes.add(l.get(1, 0))
                         elif not is_req:
@@ -326,10 +352,9 @@ def r2(ctx):
     rets = [n for n in g.nodes if n.kind == "stmt" and isinstance(n.ast, ast.Return)]
     checks = {"data_length_1 != data_length_2": False, "data_length_1 != _INTERNAL_HEADER_LENGTH + message_length + CRC_LENGTH": False, "outer_prefix != _OUTER_HEADER_PREFIX": False, "inner_prefix != _INNER_HEADER_PREFIX": False}
     for t in dec.tests(lambda e: isinstance(e, ast.Compare)):
-        txt = dec.expand_text(t.ast, t)
+        te = dec.expand(t.ast, t)
         for k in checks:
-            l, r = k.split(" != ")
-            if txt in (k, f"{r} != {l}"):
+            if same_relation(ctx.repo, hm, te, ast.parse(k, mode="eval").body):
                 tb = dec.branch(t, "true")
                 reach = g.reachable(tb.id, labels=NONEXC)
                 raises = any(g.nodes[i].kind == "stmt" and isinstance(g.nodes[i].ast, ast.Raise) and "DecodeError" in unparse(g.nodes[i].ast) for i in reach)
@@ -342,7 +367,7 @@ def r2(ctx):
     ctx.fn(h4, "HeaderDecoder.decode")
     ok = False
     for t in d4.tests(lambda e: isinstance(e, ast.Compare)):
-        if d4.expand_text(t.ast, t) in ("prefix != _PREFIX", "_PREFIX != prefix"):
+        if same_relation(ctx.repo, h4, d4.expand(t.ast, t), ast.parse("prefix != _PREFIX", mode="eval").body):
             reach = d4.cfg.reachable(d4.branch(t, "true").id, labels=NONEXC)
             ok = d4.cfg.exit.id not in reach
     ctx.check(ok, R, "at4:HeaderDecoder:rejects[prefix != _PREFIX]", h4, d4.node, "a wrong prefix raises DecodeError", "prefix not checked")
@@ -671,8 +696,9 @@ def r6(ctx):
     ctx.fn(m, "ControlStatusEncoder.encode")
     ctx.fn(m, "ControlStatusDecoder.decode")
     packs = enc.calls("_SUB_HEADER_STRUCT.pack")
-    pargs = [enc.expand_text(a, packs[0][0], keep={"sub_message_encoder"}) for a in packs[0][1].args] if packs else []
-    want = ["message.sub_message.message_id", "sub_message_encoder.non_repeat_size(message.sub_message)", "sub_message_encoder.repeat_size(message.sub_message)", "sub_message_encoder.repeat_count(message.sub_message)"]
+    encvars = {n.ast.targets[0].id for n, c in enc.calls("self._sub_message_encoder") if isinstance(n.ast, ast.Assign) and isinstance(n.ast.targets[0], ast.Name)}
+    pargs = _canon_enc([enc.expand_text(a, packs[0][0], keep=encvars) for a in packs[0][1].args]) if packs else []
+    want = ["message.sub_message.message_id", "ENC.non_repeat_size(message.sub_message)", "ENC.repeat_size(message.sub_message)", "ENC.repeat_count(message.sub_message)"]
     ctx.check(pargs == want, R, "at5:ControlStatusEncoder:sub-header-slots", m, enc.node, "packs (sub id, non-repeat length, repeat length, repeat count) - the vendor's slot order", str(pargs))
     un = [n for n in dec.cfg.nodes if n.kind == "stmt" and isinstance(n.ast, ast.Assign) and isinstance(n.ast.value, ast.Call) and (dotted(n.ast.value.func) or "").endswith("_SUB_HEADER_STRUCT.unpack_from")]
     names = [e.id for e in un[0].ast.targets[0].elts] if un and isinstance(un[0].ast.targets[0], ast.Tuple) else []
@@ -688,7 +714,7 @@ def r6(ctx):
     ok = len(names) == 4 and [slot_of.get(assoc.get(f)) for f in ("sub_message_id", "non_repeat_length", "repeat_length", "repeat_count")] == [0, 1, 2, 3]
     ctx.check(ok, R, "at5:ControlStatusDecoder:sub-header-slots", m, dec.node, "slot 0 -> sub_message_id, 1 -> non_repeat_length, 2 -> repeat_length, 3 -> repeat_count (as packed)", f"unpacked {names} -> {assoc}")
     e_cons = enc.calls("ControlStatusSubHeader")
-    kw = {k.arg: enc.expand_text(k.value, e_cons[0][0], keep={"sub_message_encoder"}) for k in e_cons[0][1].keywords} if e_cons else {}
+    kw = _canon_enc({k.arg: enc.expand_text(k.value, e_cons[0][0], keep=encvars) for k in e_cons[0][1].keywords}) if e_cons else {}
     ok = kw == {"sub_message_id": want[0], "non_repeat_length": want[1], "repeat_count": want[3], "repeat_length": want[2]}
     ctx.check(ok, R, "at5:ControlStatusEncoder:sub-header-object", m, enc.node, "the sub-header object handed to the sub-encoder carries the same four values", str(kw))
     decs = _local_decode_calls(dec)
